@@ -24,10 +24,25 @@ type verifAccess struct{ ipBlocked, hostBlocked bool }
 func (a *verifAccess) IsBlockedHost(string, uint16) bool { return a.hostBlocked }
 func (a *verifAccess) IsBlockedIP(netip.Addr) bool       { return a.ipBlocked }
 
-type verifProfAccess struct{ blocked bool }
+type verifProfAccess struct {
+	blocked bool
+	seen    *verifSeen
+}
+
+// verifSeen records what the profile access check was asked about.
+type verifSeen struct {
+	calls int
+	loc   *geoip.Location
+	raddr netip.AddrPort
+	qname string
+}
 
 func (verifProfAccess) Config() *access.ProfileConfig { return nil }
-func (a verifProfAccess) IsBlocked(*dns.Msg, netip.AddrPort, *geoip.Location) bool {
+func (a verifProfAccess) IsBlocked(req *dns.Msg, raddr netip.AddrPort, l *geoip.Location) bool {
+	if a.seen != nil {
+		a.seen.calls++
+		a.seen.loc, a.seen.raddr, a.seen.qname = l, raddr, req.Question[0].Name
+	}
 	return a.blocked
 }
 
@@ -42,7 +57,12 @@ type verifGeo struct{}
 func (verifGeo) SubnetByLocation(*geoip.Location, netutil.AddrFamily) (netip.Prefix, error) {
 	return netip.Prefix{}, nil
 }
-func (verifGeo) Data(string, netip.Addr) (*geoip.Location, error) { return nil, nil }
+func (verifGeo) Data(_ string, ip netip.Addr) (*geoip.Location, error) {
+	if ip == netip.AddrFrom4([4]byte{198, 51, 100, 7}) {
+		return &geoip.Location{Country: "NL", ASN: 64500}, nil
+	}
+	return nil, nil
+}
 
 type verifLimiter struct {
 	calls, counted int
@@ -67,15 +87,20 @@ func (l *verifProfLimiter) Check(context.Context, *dns.Msg, netip.Addr) agd.Rate
 func (l *verifProfLimiter) Config() *agd.RatelimitConfig                            { return nil }
 func (l *verifProfLimiter) CountResponses(context.Context, *dns.Msg, netip.Addr) { l.counted++ }
 
-type verifNext struct {
+type verifNextH struct {
 	calls   int
 	sawInfo bool
 	respond bool
+	loc     *geoip.Location
 }
 
-func (n *verifNext) ServeDNS(ctx context.Context, rw dnsserver.ResponseWriter, req *dns.Msg) error {
+func (n *verifNextH) ServeDNS(ctx context.Context, rw dnsserver.ResponseWriter, req *dns.Msg) error {
 	n.calls++
-	_, n.sawInfo = agd.RequestInfoFromContext(ctx)
+	var ri *agd.RequestInfo
+	ri, n.sawInfo = agd.RequestInfoFromContext(ctx)
+	if ri != nil {
+		n.loc = ri.Location
+	}
 	if n.respond {
 		return rw.WriteMsg(ctx, req, (&dns.Msg{}).SetReply(req))
 	}
@@ -103,10 +128,11 @@ func (w *verifRW) WriteMsg(context.Context, *dns.Msg, *dns.Msg) error { w.writes
 func VerifC10Middleware() {
 	acc := &verifAccess{ipBlocked: nondetBool(), hostBlocked: nondetBool()}
 	profBlocked := nondetBool()
+	seen := &verifSeen{}
 	profLim := &verifProfLimiter{res: []agd.RatelimitResult{agd.RatelimitResultDrop, agd.RatelimitResultUseGlobal, agd.RatelimitResultPass}[verifChoice(3)]}
 	prof := &agd.Profile{
 		ID:                  "prof1234",
-		Access:              verifProfAccess{blocked: profBlocked},
+		Access:              verifProfAccess{blocked: profBlocked, seen: seen},
 		Ratelimiter:         profLim,
 		BlockingMode:        &dnsmsg.BlockingModeNullIP{},
 		FilteredResponseTTL: 10 * time.Second,
@@ -158,7 +184,7 @@ func VerifC10Middleware() {
 		Limiter:          lim,
 		Protocols:        protos,
 	})
-	next := &verifNext{respond: verifChoice(2) == 1}
+	next := &verifNextH{respond: verifChoice(2) == 1}
 	rw := &verifRW{port: 4321}
 	if verifChoice(2) == 1 {
 		rw.port = 0
@@ -177,6 +203,10 @@ func VerifC10Middleware() {
 		verifAssert("device-error-is-reported", (kind == 4) == (serveErr != nil))
 		verifReach("dropped-device")
 		return
+	}
+	if seen.calls > 0 {
+		// the profile's access rules are evaluated on this client's data
+		verifAssert("profile-access-sees-the-client's-location-address-and-question", kind == 1 && seen.loc != nil && seen.loc.ASN == 64500 && seen.raddr.Addr() == netip.AddrFrom4([4]byte{198, 51, 100, 7}) && seen.raddr.Port() == 4321 && seen.qname == "example.org.")
 	}
 	blocked := acc.ipBlocked || acc.hostBlocked || (kind == 1 && profBlocked)
 	if blocked {
@@ -200,6 +230,7 @@ func VerifC10Middleware() {
 		verifReach("ratelimited")
 	default:
 		verifAssert("unrejected-request-processed-exactly-once", next.calls == 1 && next.sawInfo)
+		verifAssert("request-info-carries-the-client's-location", next.loc != nil && next.loc.ASN == 64500)
 		verifAssert("response-written-iff-produced", (rw.writes == 1) == next.respond)
 		if useProfile {
 			verifAssert("profile-limit-applies-instead-of-global", lim.calls == 0 && lim.counted == 0)
